@@ -771,3 +771,31 @@ func FuzzTarget(f *testing.F, p Plan, check string, seeds [][]byte) {
 		}
 	})
 }
+
+// EnumerateInputs runs prop over a fixed list of inputs (an enumerated corpus),
+// split over the shards of a thorough run; mk turns the i-th input into a case
+// (nil: the input alone). It reports like the rapid-driven checks.
+func EnumerateInputs(t *testing.T, p Plan, name string, inputs [][]byte, mk func(i int, in []byte) Case, prop func(Case) Result) {
+	c := Cfg()
+	shards := 1
+	if c.Tier == "thorough" {
+		shards = 16
+	}
+	for i, in := range inputs {
+		if i%shards != c.Shard%shards {
+			continue
+		}
+		cse := Case{In: in}
+		if mk != nil {
+			cse = mk(i, in)
+		}
+		res := safeProp(prop, cse)
+		Count(name, &cse, res.Nontrivial, res.Labels...)
+		if res.Err != nil {
+			if Fail(t, p, name, cse, res.Err) {
+				return
+			}
+		}
+	}
+	SetExhaustive(name, fmt.Sprintf("%d enumerated inputs", len(inputs)))
+}
